@@ -63,6 +63,11 @@ class Note(object):
             dynamics = {}
         else:
             dynamics = dict(dynamics)
+            # (checked here: the keywords below overrule these values)
+            if dynamics.get("velocity") is not None and not 0 <= dynamics["velocity"] < 128:
+                raise ValueError("MIDI velocity must be 0-127")
+            if dynamics.get("channel") is not None and not 0 <= dynamics["channel"] < 16:
+                raise ValueError("MIDI channel must be 0-15")
 
         if velocity is not None:
             dynamics["velocity"] = velocity
@@ -123,14 +128,18 @@ class Note(object):
 
         # Work out the whole request first: a request that is rejected must
         # leave the note as it was.
+        # Every value that is given is checked, also one that the other
+        # source (keyword or dict) overrules.
+        for v in (velocity, dynamics.get("velocity")):
+            if v is not None and not 0 <= v < 128:
+                raise ValueError("MIDI velocity must be 0-127")
+        for c in (channel, dynamics.get("channel")):
+            if c is not None and not 0 <= c < 16:
+                raise ValueError("MIDI channel must be 0-15")
         if velocity is None and "velocity" in dynamics:
             velocity = dynamics["velocity"]
         if "channel" in dynamics:
             channel = dynamics["channel"]
-        if velocity is not None and not 0 <= velocity < 128:
-            raise ValueError("MIDI velocity must be 0-127")
-        if channel is not None and not 0 <= channel < 16:
-            raise ValueError("MIDI channel must be 0-15")
 
         dash_index = name.split("-")
         if len(dash_index) == 1:
